@@ -140,6 +140,8 @@ def specWalk : List SOp → List SOp → List String → Walk → Nat → Option
                 s!"item {pos}: a stored tuple does not conform to the declared schema")
         else if !conformsTuple cols t && rows.any (Tuple.eq t) then
           some ("session_fact_unvalidated", s!"item {pos}: a non-conforming request-local fact is answered as a tuple of the relation")
+        else if conformsTuple cols t && !rows.any (Tuple.eq t) then
+          some ("unclassified", s!"item {pos}: a conforming request-local fact is missing from the request's answer")
         else next w
       | some _, none => some ("unclassified", s!"item {pos}: unparsable rows {o}")
       | none, _ => next w
